@@ -46,6 +46,15 @@ theorem rows_are_sublist {α} (packets : List α) :
     rw [this]
     exact List.drop_sublist _ _
 
+/-- Exactly which packets the elided listing shows, and in which order: the first five followed by the last five. -/
+theorem rows_large_shown {α} (packets : List α) (h : packets.length > 10) :
+    (describeRows packets).filterMap id = packets.take 5 ++ packets.drop (packets.length - 5) := by
+  rw [rows_large packets h]
+  have e : ∀ l : List α, l.filterMap (id ∘ some) = l := by
+    intro l; induction l <;> simp_all
+  simp only [List.filterMap_append, List.filterMap_map, e]
+  simp
+
 /-- `parse --packet i`: the packet at that index for every valid index, the out-of-range message otherwise. -/
 theorem index_valid {α} (packets : List α) (i : Nat) (h : i < packets.length) :
     selectPacket packets (i : Int) = packets[i]? ∧ packets[i]?.isSome := by
